@@ -53,6 +53,10 @@ CLAIMED = {
    text="Discovery.tla defines PyIndexed (root-relative rules) and the implementation model with its named deviations; TLC checks RepairedRelocationInvariant, FaultIsolation, RepairedEqualsR; one tree holding the full product of directory components x file names (1330 uniquely tagged files) is materialised under 7 root locations x 4 exclude sets x 3 fault modes and scanned by the real library; the indexed set and the third-party classification must equal the specification.",
    note="<= 2 directory components over 11 representatives, 10 file names; exclude shapes `dir/**`, `**/name.py`; faults: invalid UTF-8, dangling symlinks (no permission faults as root).",
    technique="TLA+ case table (TLC) + materialised trees scanned by the real library"),
+ "C14": dict(level=MC, ref="DESIGN.md section 4 C14",
+   text="Imports.tla enumerates importer x first edge (star / explicit / aliased / pytest_plugins with last-assignment-wins) x spelling (relative 1/2, absolute) x target (module, package __init__, module in package) x onward chains (self import, 2-cycle, re-exports); TLC checks RepairedEqualsRI; every case is materialised on disk and scanned by the real library, every name is resolved from the using file and compared with PyProvides, and the scan must have discovered the import closure. Plugins.tla enumerates venv layouts (dist-info/egg-info, module/package/missing target, regular/editable inside/outside, .pth naming, _pytest built-ins); the real scan's classification and resolution are compared with the specification.",
+   note="364 import cases, 156 venv layouts; absolute imports judged only next to the importer; library-level is_third_party/is_plugin flags stand for symbol visibility.",
+   technique="TLA+ case tables (TLC) + materialised trees scanned by the real library"),
  "C16": dict(level=MC, ref="DESIGN.md section 4 C16",
    text="compute_fixture_cycles is transcribed step by step into TLA+ (explicit-stack DFS, root order) and TLC evaluates it on every dependency graph of the table; the per-definition reference graph (layer R) decides soundness and completeness of every reported cycle and the scope rule; every (graph, registration order) is replayed on the real library with 3 additional fresh databases for run-to-run stability; the model must predict the implementation's exact output.",
    note="<= 3 fixture names over 4 files, all parameter lists, all registration orders of defining files; scope universe: 5 scopes x dependency defined at up to 4 places.",
